@@ -2942,9 +2942,22 @@ static Node *struct_ref(Node *node, Token *tok) {
 // Convert A++ to `(typeof A)((A += 1) - 1)`
 static Node *new_inc_dec(Node *node, Token *tok, int addend) {
   add_type(node);
-  return new_cast(new_add(to_assign(new_add(node, new_num(addend, tok), tok)),
-                          new_num(-addend, tok), tok),
-                  node->ty);
+  Node *expr = new_add(to_assign(new_add(node, new_num(addend, tok), tok)),
+                       new_num(-addend, tok), tok);
+
+  // If A is a bit-field, `A += 1` may have wrapped around in the width
+  // of the field. The old value is then the result reduced to that
+  // width, not just to the declared type.
+  if (node->kind == ND_MEMBER && node->member->is_bitfield) {
+    Type *ty = node->ty;
+    bool is_unsigned = ty->is_unsigned || ty->kind == TY_BOOL;
+    int shift = 64 - node->member->bit_width;
+    expr = new_cast(expr, is_unsigned ? ty_ulong : ty_long);
+    expr = new_binary(ND_SHL, expr, new_num(shift, tok), tok);
+    expr = new_binary(ND_SHR, expr, new_num(shift, tok), tok);
+  }
+
+  return new_cast(expr, node->ty);
 }
 
 // postfix = "(" type-name ")" "{" initializer-list "}"
